@@ -93,7 +93,6 @@ package account
 //@ func (*DB).ExecTransfer [C15]
 //@   requires bytes(acc.execAccountKeyPerfix) == eprefix(ref(acc))
 //@   requires ledgerOK(acc.db.kvhas, acc.db.kvval, eprefix(ref(acc)))
-//@   ensures ledgerOK(acc.db.kvhas, acc.db.kvval, eprefix(ref(acc)))
 //@   opt overflow=assumed panics=allowed
 //@   requires acc.db != nil
 //@   frame allocates, *.kvhas, *.kvval
